@@ -84,7 +84,7 @@ func ZZ_C05_Schema() {
 // C16-N (a): every byte string of up to maxlen bytes decoded into every schema
 // type: error or value, never a panic, no read beyond len (cap = len + 4).
 //
-//gosx:property=C16 tier=quick shards=16 strictcap unwind=24 p.maxlen=4 p.maxlen.thorough=7
+//gosx:property=C16 tier=quick shards=16 strictcap unwind=48 p.maxlen=3 p.maxlen.thorough=6
 func ZZ_C16_SchemaRawBytes() {
 	t := zzPickType()
 	n := vx.Choice("len", vx.Param("maxlen", 4)+1)
@@ -99,7 +99,7 @@ func ZZ_C16_SchemaRawBytes() {
 // i.e. every over-long / truncated / mistyped variant one octet away) decoded
 // into the type it was produced from: error or value, never a panic.
 //
-//gosx:property=C16 tier=quick shards=16 strictcap unwind=24 p.shapes=1 p.shapes.thorough=2
+//gosx:property=C16 tier=quick shards=16 strictcap unwind=48 p.shapes=1 p.shapes.thorough=2 p.maxpos=10 p.maxpos.thorough=0
 func ZZ_C16_SchemaCorruptedEncoding() {
 	t := zzPickType()
 	v := reflect.New(t)
@@ -113,7 +113,11 @@ func ZZ_C16_SchemaCorruptedEncoding() {
 	b := make([]byte, len(enc), len(enc)+4)
 	copy(b, enc)
 	if len(b) > 0 {
-		i := vx.Choice("pos", len(b))
+		np := len(b)
+		if mp := vx.Param("maxpos", 0); mp > 0 && np > mp {
+			np = mp // quick tier: only the first maxpos octets are corrupted
+		}
+		i := vx.Choice("pos", np)
 		b[i] = vx.Byte("octet")
 	}
 	w := reflect.New(t)
